@@ -125,7 +125,7 @@ fn steps(ctx: &mut Ctx) {
             }
         }
         for (isf, pos, vi) in probes {
-            for pattern in 0..2 {
+            for pattern in 0..3 {
                 case += 1;
                 if !ctx.mine(case) {
                     continue;
@@ -139,6 +139,16 @@ fn steps(ctx: &mut Ctx) {
                 // the other operands: small, and such that min < max / index < size style guards hold
                 s.i = if pattern == 0 { vec![2, 2, 2, 2, 2] } else { vec![2, 5, 1, 1, 7] };
                 s.f = if pattern == 0 { vec![fb(0.5), fb(1.0), fb(1.0), fb(2.0)] } else { vec![fb(1.0), fb(0.25), fb(0.0), fb(2.0)] };
+                if pattern == 2 {
+                    // degenerate operands: empty vectors, empty list, empty name on top
+                    s.bv.insert(0, vec![]);
+                    s.iv.insert(0, vec![]);
+                    s.fv.insert(0, vec![]);
+                    s.c.insert(0, SItem::List(vec![]));
+                    s.e.insert(0, SItem::List(vec![]));
+                    s.n.insert(0, String::new());
+                    s.g.insert(0, SGraph::default());
+                }
                 let (cls, shown) = if isf {
                     s.f[pos] = fb(FLOAT_PROBES[vi]);
                     (format!("f{}:{}", pos, fclass(FLOAT_PROBES[vi])), format!("{}", FLOAT_PROBES[vi]))
